@@ -162,9 +162,12 @@ def _apply(world, op):
 class World:
     """history[0] = ["ctor", dtype|None, device|None]; the rest are operations."""
 
-    def __init__(self, cfg, history):
+    def __init__(self, cfg, history, reads=False):
         self.cfg = cfg
         self.history = [list(h) for h in history]
+        self.reads = reads           # observe the derived quantities after EVERY operation of the replay
+        self.read_problems = []      # (position, site, name, observed dtype/exception, expected dtype)
+        self.n_reads = 0
         self._built = False
         self.p = self.d = None
         self.events = []          # per op: None | exception
@@ -187,7 +190,7 @@ class World:
                 kw["device"] = torch.device(ctor[2])
             self.p = getattr(I, self.cfg["primary"])(dt=DT_STEP, **kw)
             self.d = _derivative(self.cfg["derivative"], self.p)
-            for op in self.history[1:]:
+            for i, op in enumerate(self.history[1:], start=1):
                 try:
                     _apply(self, op)
                     self.events.append(None)
@@ -195,10 +198,50 @@ class World:
                     raise
                 except Exception as e:  # noqa: BLE001 - judged against the automaton by the caller
                     self.events.append(e)
+                if self.reads:
+                    self._read(i)
             self.default = NAME_OF[torch.get_default_dtype()]
         finally:
             torch.set_default_dtype(prev)
         return self
+
+    def _read(self, position):
+        """Reads interleaved with the operations (a concrete object may remember what it handed out):
+        volatility / variance properties of the primary, payoff, every applicable feature.  Each must be in
+        the dtype the simulated series have at that moment."""
+        from pfhedge.features import get_feature
+        p, d = self.p, self.d
+        bufs = dict(p.named_buffers())
+        if "spot" not in bufs:
+            return
+        want = bufs["spot"].dtype
+        prim = self.cfg["primary"]
+        items = []
+        if prim in HAS_VOL:
+            items += [(prim + ".volatility", "volatility", lambda: p.volatility),
+                      (prim + ".variance", "variance", lambda: p.variance)]
+        items.append(("derivative(" + self.cfg["derivative"] + ").payoff", "payoff", lambda: d.payoff()))
+        names = _feature_names(self.cfg, False)
+        if self.cfg.get("reads", "full") == "core":      # quick tier: the features that read derived series
+            names = [n for n in names if n in ("volatility", "variance", "underlier_spot", "time_to_maturity")]
+        for name in names:
+            items.append(("features." + name, name + ".get(None)",
+                          lambda name=name: get_feature(name).of(d).get(None)))
+        with torch.no_grad():
+            for site, name, fn in items:
+                try:
+                    out = fn()
+                except HarnessError:
+                    raise
+                except Exception as e:  # noqa: BLE001
+                    if not is_backend_unsupported(e, want):
+                        self.read_problems.append((position, site, name, f"{type(e).__name__}: {str(e)[:120]}",
+                                                   NAME_OF.get(want, str(want))))
+                    continue
+                self.n_reads += 1
+                if out.dtype != want or str(out.device) != "cpu":
+                    self.read_problems.append((position, site, name, NAME_OF.get(out.dtype, str(out.dtype)),
+                                               NAME_OF.get(want, str(want))))
 
     class _Ctx:
         def __init__(self, w):
@@ -321,6 +364,14 @@ def check_transition(ctx, cfg, hist, op, after, dead):
         ctx.violation(site, f"{'+'.join(what)}_after_{_opname(op)}:{decl_cls}",
                       f"after {_opname(op)} the instrument is {obs}, the contract gives {exp}; history {full}",
                       observed=repr(obs), expected=repr(exp), block=block, family="dtype_history")
+    # reads interleaved with the replay: what is handed out after this operation has the series' dtype
+    for pos, rsite, name, got, want in after.read_problems:
+        if pos == len(full) - 1:
+            ctx.violation(rsite, f"stale_read:{name}:{got}_expected_{want}_after_{op[0]}",
+                          f"{name} read after {_opname(op)} is {got}, the simulated series are {want} (the same "
+                          f"quantities were read after every earlier operation of the history); history {full}",
+                          observed=got, expected=want, block=block, family="dtype_history")
+    ctx.add("interleaved_reads", after.n_reads)
     # invariant: every buffer has the declared dtype, and lives on the cpu
     decl = obs[0]
     if decl is not None and any(d != decl for _, d in obs[2]):
@@ -480,7 +531,8 @@ CTORS = [["ctor", None, None], ["ctor", "float64", None], ["ctor", "float16", No
 
 @family
 def dtype_bfs(ctx, block):
-    cfg = {"primary": block["primary"], "derivative": block["derivative"], "default0": block["default0"]}
+    cfg = {"primary": block["primary"], "derivative": block["derivative"], "default0": block["default0"],
+           "reads": block.get("queries", "full")}
     ops = operations(block["ops"])
     if block.get("extra_op") and block["extra_op"] not in ops:
         ops = ops + [block["extra_op"]]
@@ -495,7 +547,7 @@ def dtype_bfs(ctx, block):
                     "observed_at_end": repr(World(cfg, h).observe())})
 
     def build(h):
-        return World(cfg, h)          # lazy: only worlds that are observed are constructed
+        return World(cfg, h, reads=True)   # lazy: only worlds that are observed are constructed
 
     def canon(w):
         if _hkey(w.history) in dead:
@@ -543,11 +595,12 @@ def dtype_bfs(ctx, block):
 @family
 def dtype_history(ctx, block):
     """One explicit history: every transition and the final state's queries."""
-    cfg = {"primary": block["primary"], "derivative": block["derivative"], "default0": block["default0"]}
+    cfg = {"primary": block["primary"], "derivative": block["derivative"], "default0": block["default0"],
+           "reads": "full"}
     h = block["history"]
     dead = set()
     for i in range(1, len(h)):
-        ok = check_transition(ctx, cfg, h[:i], h[i], World(cfg, h[:i + 1]), dead)
+        ok = check_transition(ctx, cfg, h[:i], h[i], World(cfg, h[:i + 1], reads=True), dead)
         ctx.tick(1, nontrivial=1)
         if not ok:
             return
